@@ -251,7 +251,15 @@ def run_sequence(case, env):
         kept_exc = []
         descs = []
         goodreads = 0
-        away_step = rng.randrange(case['len']) if case['k'] % 4 == 1 else -1
+        import contextlib
+        outer = contextlib.ExitStack()
+        held = case['k'] % 5 == 2
+        if held:
+            # the whole sequence runs inside ONE outer open_array() context of the object: reads, writes and reads again
+            # must agree there too (nothing may be served from a stale buffer)
+            outer.enter_context(a.open_array())
+            res.count('mon.sequences_inside_one_context')
+        away_step = rng.randrange(case['len']) if case['k'] % 4 == 1 and case['k'] % 5 != 2 else -1
         switch_step = rng.randrange(case['len']) if case['k'] % 2 == 1 else -1
         for step in range(case['len']):
             if step == away_step:
@@ -316,7 +324,7 @@ def run_sequence(case, env):
                         got[where] = ('err', type(e), str(e)[:80])
                         kept_exc.append(e)      # a caller may keep the exception (and its traceback) alive
                     res.count('mon.fdmap')
-                    leak = fdmap(path)
+                    leak = [] if held else fdmap(path)
                     if leak:
                         res.fail(f'fd-leak-after-read:{got[where][0]}', f'step {step} read {desc} ({where}): still open: {leak}',
                                  step=step, index=desc)
@@ -359,7 +367,7 @@ def run_sequence(case, env):
                             break
             else:
                 # ---------------------------------------------------- assignment
-                vkind = rng.choice(['scalar', 'scalar', 'samedtype', 'otherdtype', 'list', 'wrongshape'])
+                vkind = rng.choice(['scalar', 'scalar', 'samedtype', 'otherdtype', 'list', 'wrongshape', 'outofrange'])
                 try:
                     tgt = ref[idx]
                     tshape = np.shape(tgt)
@@ -367,6 +375,10 @@ def run_sequence(case, env):
                     tshape = ()
                 if vkind == 'scalar':
                     v = rng.randrange(0, 100)
+                elif vkind == 'outofrange':
+                    # Python numbers the array type may not be able to hold: NumPy decides (OverflowError / TypeError /
+                    # accepted), Darr must decide the same way
+                    v = rng.choice([300, -1, 70000, 2 ** 63, -2 ** 40, 1 + 2j, 1e40, float('nan')])
                 elif vkind == 'samedtype':
                     v = gens.distinct_values(rng, dtype, tshape) if int(np.prod(tshape)) else np.zeros(tshape, dtype)
                 elif vkind == 'otherdtype':
@@ -408,7 +420,7 @@ def run_sequence(case, env):
                         got2 = ('err', type(e), str(e)[:80])
                         kept_exc.append(e)
                 res.count('mon.fdmap')
-                leak = fdmap(path)
+                leak = [] if held else fdmap(path)
                 if leak:
                     res.fail(f'fd-leak-after-assignment:{got[0]}', f'step {step} assign {desc}: still open: {leak}', step=step, index=desc)
                     break
@@ -454,6 +466,12 @@ def run_sequence(case, env):
                         break
                 if res.fails:
                     break
+        outer.close()
+        if held and not res.fails:
+            res.count('mon.fdmap')
+            leak = fdmap(path)
+            if leak:
+                res.fail('fd-leak-after-outer-context', f'after leaving the outer context: still open: {leak}')
         res.nontrivial = goodreads >= 1
         res.sig = repr((shape, case['numtype'], case['bo'], case.get('mode'), descs))
         res.dim('handle_mode', case.get('mode', 'r+'))
